@@ -3,14 +3,26 @@
 Every function / method of the pyins modules (public ones and the private helpers they call)
 becomes a `func`: a flow-insensitive set of statements over SSA-renamed variables
 
-    Fresh x | Alias x y | Mutate x | Call x f args | GlobalRng | Draw r | StateRead g r | StateWrite g r
+    Fresh x | Assign x y | Load x y | Reach x y | Store x y | Mutate x | Call/CallNew x x0 f args
+    | GlobalRng | Draw r | StateRead g r | StateWrite g r
 
-The classification of numpy / pandas / scipy operations (fresh result vs. may-alias vs. mutates
-an argument) is DATA (tables LIB, METHODS, ATTRS, BUILTINS below) and is validated by micro-tests on
-the real libraries on every run (`run_microtests`).  Anything that is not classified raises
-`Unsupported` listing the construct (fail closed).
+(x := new value | x may be y or a view of y | x may be an element of y | x may be anything reachable
+from y | y is stored into x | x is written | call | draw from numpy's global generator | draw from the
+generator r | slot g of object r is read / rebound).  Control flow is handled by SSA renaming with phi
+variables at joins and loop heads; receivers' attributes are slot variables; module constants hang
+off one protected root; an omitted / None `rng` argument is numpy's global generator.
 
-Output: coq/Gen/AliasIR.v (`generated_progs`, names, public list, slot names, schema constants).
+The classification of numpy / pandas / scipy operations (fresh result vs. may-alias vs. writes an
+argument) is DATA (tables LIB, METHODS, ATTR_*, BUILTINS below) and is validated by micro-tests on the
+installed libraries on every run (`run_microtests`).  Anything that is not classified raises
+`Unsupported` naming the construct (fail closed).
+
+The translator also SOLVES the points-to constraints and computes callee summaries, but none of that
+is trusted: solutions and summaries are emitted as hints into coq/Gen/AliasIR.v and re-validated by Coq
+(`valid_hints`, `summary_ok`, `check_fun`).  The python mirror of the checker only gives diagnostics.
+
+Output: coq/Gen/AliasIR.v (`generated_progs`, names, public list, slot names, read-only slots,
+schema constants).  `generate()` writes only if the text changed and returns statistics.
 """
 import ast
 import os
